@@ -2,9 +2,14 @@
 
 META = {
     "C01": {
-        "text": "Bounded symbolic model checking of the real Storage.Create/removeLeastRecent over the memory driver from an arbitrary well-formed ledger (symbolic strictly increasing revisions as 64-bit bit-vectors, symbolic statuses with at most one deployed, symbolic MaxHistory): the solver shows for all such ledgers within the bound that pruning removes a prefix of the non-deployed revisions, never the deployed one, and leaves at most N (N+1 only when only the deployed old revision survives).",
-        "design_ref": "DESIGN.md §4 C01 (H01-prune)",
-        "note": "Pruning clause of C01 only so far; the operation-level clauses (install/upgrade/rollback/uninstall histories, faults, crashes) are claimed only once H01-hist lands. Bounds: ≤3 (quick) / ≤5 (thorough) existing revisions ≤97, MaxHistory ≤4/≤6, 4/9 statuses. Memory driver.",
+        "text": "Bounded symbolic model checking of helm's real action layer: every history of install/upgrade/rollback/uninstall up to the depth bound from the empty ledger, every flag (replace, atomic, cleanup-on-fail, keep-history, no-hooks, max-history, rollback target) a symbolic input, with injected failures of cluster calls, readiness/hook waits and storage writes and (thorough) a process death at any call into the cluster or the store; after every step the stored ledger must have unique strictly increasing revisions, each new revision exactly max+1, at most one deployed, and the success post-conditions of the property. Plus an inductive one-step check of pruning from an arbitrary ledger with 64-bit symbolic revisions. The whole of install.go/upgrade.go/rollback.go/uninstall.go/hooks.go/storage.go and the memory driver run as real SSA, including the worker goroutines.",
+        "design_ref": "DESIGN.md §4 C01",
+        "note": "Cuts: engine.Render (literal-YAML templates render to themselves; native replay uses the real engine), resource.Helper.Get (model cluster; native replay: fake REST transport), kube.Interface implemented by a model cluster (class E), storage wrapped by a fault/crash injector with copy-on-write persistence semantics over the real memory driver. Deterministic run-to-block goroutine schedule; context cancellation not explored. Bounds: depth 2, <=1 fault (quick); depth 3, <=1 fault, <=1 crash (thorough); 2 chart variants x hook/no hook; MaxHistory 0-2. Three known findings (storage-write failures that are only logged) are listed in known_findings.json.",
+    },
+    "C03": {
+        "text": "Same machinery as C01 restricted to cluster-side single faults (every kube.Interface and Waiter method at every call position, hook readiness included): the solver-explored path tree covers every placement of the fault in every history up to the bound; on each failing path the operation must return an error, the revision it created must be failed (never pending, never deployed), the previously deployed revision keeps its status, and with --atomic the ledger is restored (failed install leaves no record, failed upgrade ends with a deployed highest revision). Found the rollback-leaves-pending-rollback defect, now fixed in /repo.",
+        "design_ref": "DESIGN.md §4 C03",
+        "note": "Same cuts and model cluster as C01. 'Never becomes ready' is the waiter returning an error (no timing). Cluster-content clauses (cleanup-on-fail deletes what was created; atomic restores the cluster to the previous manifest) are checked against the model cluster only. Bounds: depth 2 (quick) / 3 (thorough), exactly <=1 cluster fault per history.",
     },
     "C04": {
         "text": "Bounded symbolic model checking of the real strvals parser: for every --set string of the documented forms built from symbolic atoms, and for every byte string up to the bound over the grammar's alphabet, the solver shows the parsed structure is exactly the named path and that unrelated entries of the destination are untouched. Exhaustive over all byte values within the bound, which a table of examples cannot be.",
@@ -39,4 +44,4 @@ META = {
 }
 
 _NYB = "harness not built yet in this session (design in DESIGN.md §4); not claimed until its check runs clean"
-NOT_APPLICABLE = {p: _NYB for p in ["C02", "C03", "C05", "C06", "C07", "C09", "C11", "C12", "C13", "C14", "C15", "C17", "C19"]}
+NOT_APPLICABLE = {p: _NYB for p in ["C02", "C05", "C06", "C07", "C09", "C11", "C12", "C13", "C14", "C15", "C17", "C19"]}
